@@ -309,6 +309,10 @@ def prog_stats(prog):
                 st["styles"].add("m:" + n["style"])
             elif n["k"] == "tb":
                 st["tb"] += 1
+            elif n["k"] == "spawn":
+                st["styles"].add("spawn:" + n["mode"])
+                for th in n["threads"]:
+                    walk(th, d + 1)
             else:
                 if n["k"] == "remote":
                     st["remote"] += 1
@@ -334,6 +338,8 @@ def prog_shape(prog):
                 out.append(("m", n["style"], len(n["fields"])))
             elif n["k"] == "tb":
                 out.append(("tb", n["exc"]))
+            elif n["k"] == "spawn":
+                out.append(("spawn", n["mode"], [walk(th) for th in n["threads"]]))
             else:
                 out.append((n["k"], n.get("style") or n.get("api"), n.get("outcome"), n.get("exc"), n.get("cross"),
                             walk(n["children"])))
